@@ -20,12 +20,14 @@ import (
 	"math/rand"
 	"os"
 	"path/filepath"
+	"regexp"
 	"runtime"
 	"sort"
 	"strings"
 	"sync"
 	"time"
 
+	"github.com/influxdata/influxdb/models"
 	"github.com/influxdata/influxdb/pkg/verifhook"
 	"github.com/influxdata/influxdb/tsdb"
 	"github.com/influxdata/influxdb/tsdb/engine/tsm1"
@@ -588,6 +590,16 @@ func (h *hist) checkAll(after string) bool {
 			sig += "/" + class
 			what += fmt.Sprintf(" (lingering: %v)", newOnes)
 		}
+		if kind == "emptied-tag-value-listed" || kind == "emptied-tag-key-listed" || kind == "emptied-measurement-listed" {
+			// The listings are derived from the series the index holds: a tag
+			// value / key / measurement that lingers because a piecewise-emptied
+			// series lingers (the listed defect above; the cardinality question
+			// that would name it comes later in the list) is that same defect.
+			if by := h.explainedByLingeringSeries(what); by != "" {
+				sig = "C10/listing/emptied-series-listed/" + h.index + "/key-still-in-tsm-index"
+				what += " (carried by the lingering series " + by + ", whose key is still in a TSM file index)"
+			}
+		}
 		if h.delInWindow {
 			sig = "C10/delete-while-snapshot-held/listing"
 		}
@@ -705,6 +717,67 @@ func (h *hist) checkListings() string {
 			return fmt.Sprintf("live-series-missing: series cardinality is %d but %d series have points", card, len(live))
 		}
 		return fmt.Sprintf("emptied-series-listed: series cardinality is %d but only %d series have points", card, len(live))
+	}
+	return ""
+}
+
+var (
+	reLingerVal  = regexp.MustCompile(`emptied-tag-value-listed: (\S+)=(\S*) of measurement "([^"]*)"`)
+	reLingerKey  = regexp.MustCompile(`emptied-tag-key-listed: tag key "([^"]*)" of measurement "([^"]*)"`)
+	reLingerMeas = regexp.MustCompile(`emptied-measurement-listed: measurement "([^"]*)"`)
+)
+
+// explainedByLingeringSeries returns a series the index still lists although it
+// has no points, whose key is still in a TSM file index, and which carries the
+// lingering tag value / tag key / measurement named in what ("" if none).
+func (h *hist) explainedByLingeringSeries(what string) string {
+	live := h.tr.M.LiveSeries()
+	sh := h.env.Shard()
+	idx, err1 := sh.Index()
+	sfile, err2 := sh.SeriesFile()
+	eng, err3 := h.env.Engine()
+	if err1 != nil || err2 != nil || err3 != nil {
+		return ""
+	}
+	var meas, k, v string
+	anyKey, anyVal := true, true
+	if m := reLingerVal.FindStringSubmatch(what); m != nil {
+		k, v, meas, anyKey, anyVal = m[1], m[2], m[3], false, false
+	} else if m := reLingerKey.FindStringSubmatch(what); m != nil {
+		k, meas, anyKey = m[1], m[2], false
+	} else if m := reLingerMeas.FindStringSubmatch(what); m != nil {
+		meas = m[1]
+	} else {
+		return ""
+	}
+	is := tsdb.IndexSet{Indexes: []tsdb.Index{idx}, SeriesFile: sfile}
+	ks, err := is.MeasurementSeriesKeysByExpr([]byte(meas), nil)
+	if err != nil {
+		return ""
+	}
+	for _, key := range ks {
+		id := string(key)
+		if live[id] {
+			continue
+		}
+		name, tags := models.ParseKeyBytes(key)
+		if string(name) != meas {
+			continue
+		}
+		if !anyKey {
+			tv := tags.Get([]byte(k))
+			if tv == nil || (!anyVal && string(tv) != v) {
+				continue
+			}
+		}
+		for _, f := range eng.FileStore.Files() {
+			if i := f.Seek(key); i < f.KeyCount() {
+				ck, _ := f.KeyAt(i)
+				if sk, _ := tsm1.SeriesAndFieldFromCompositeKey(ck); string(sk) == id {
+					return id
+				}
+			}
+		}
 	}
 	return ""
 }
